@@ -336,7 +336,12 @@ def _run_matrix(ctx, case):
             lo = counts[i] + lo
         for i in maybe:
             hi = counts[i] + hi
-        ctx.claim(sym_and(out[j] >= lo, out[j] <= hi), "matrix.class_placement", (str(iv), sure, maybe, out[j]))
+        if ctx.sym:
+            ok = sym_and(out[j] >= lo, out[j] <= hi)
+        else:       # float sums in another order may differ in the last place
+            slack = 1e-9 * (1.0 + abs(float(hi)))
+            ok = (out[j] >= lo - slack) and (out[j] <= hi + slack)
+        ctx.claim(ok, "matrix.class_placement", (str(iv), sure, maybe, out[j]))
     tot_in = 0
     for c in counts:
         tot_in = c + tot_in
